@@ -57,8 +57,9 @@ ContainsRV(ns, i, nm) == \E j \in Reach(ns, i) : ns[j].op = "RandomVariable" /\ 
 (***************************************************************************)
 \* rule 5b applies to the estimation object and to any formula that contains the trajectory operator
 \* (it is then evaluated individual by individual); other formulas are applied row by row
-CtxFor(ns, root) == [mc |-> FALSE, rv |-> {}, traj |-> FALSE,
-                     rule5b |-> Estimation \/ Contains(ns, root, "PanelLikelihoodTrajectory")]
+CtxForE(ns, root, est) == [mc |-> FALSE, rv |-> {}, traj |-> FALSE,
+                           rule5b |-> est \/ Contains(ns, root, "PanelLikelihoodTrajectory")]
+CtxFor(ns, root) == CtxForE(ns, root, Estimation)
 
 RECURSIVE OK(_, _, _)
 OK(ns, i, ctx) ==
@@ -100,6 +101,10 @@ OneKindPerName(ns, root) ==
     \A a, b \in NameKinds(ns, root) : a[1] = b[1] => a[2] = b[2]
 
 Valid(ns, root) == OK(ns, root, CtxFor(ns, root)) /\ OneKindPerName(ns, root)
+\* validity if the formula were applied row by row (rule 5b only when the formula itself contains the trajectory)
+ValidRowwise(ns, root) == OK(ns, root, CtxForE(ns, root, FALSE)) /\ OneKindPerName(ns, root)
+\* validity with rule 5b (variables below the trajectory on panel data) left out altogether
+ValidNo5b(ns, root) == OK(ns, root, [mc |-> FALSE, rv |-> {}, traj |-> FALSE, rule5b |-> FALSE]) /\ OneKindPerName(ns, root)
 
 \* which rule is broken (for the report; several may be)
 Broken(ns, root) ==
@@ -191,6 +196,6 @@ DrawNeedsMC == done =>
     ((Contains(nodes, Root, "bioDraws") /\ ~Contains(nodes, Root, "MonteCarlo")) => ~Valid(nodes, Root))
 
 Emitted == [ops |-> [i \in 1..NOps(nodes) |-> nodes[NL + i]], root |-> Root, nleaves |-> NL,
-            valid |-> Valid(nodes, Root), broken |-> Broken(nodes, Root), panel |-> Panel, estimation |-> Estimation]
+            valid |-> Valid(nodes, Root), valid_rowwise |-> ValidRowwise(nodes, Root), valid_no5b |-> ValidNo5b(nodes, Root), broken |-> Broken(nodes, Root), panel |-> Panel, estimation |-> Estimation]
 EmitInv == done => PrintT(ToJson(Emitted))
 =============================================================================
